@@ -10,10 +10,14 @@ type c12Oracle struct {
 	lastAcceptedTOTP map[string]string // pid -> digits of the TOTP code accepted last for it
 	lastWasEnrol     map[string]bool   // pid -> that acceptance was the enrolment confirmation
 	rejectedSince    map[string]int    // pid -> refused TOTP submissions since then
+	// verifiedSince: a code that verifies was submitted since then and the
+	// login was refused for another reason (a gate, a failure): the library
+	// may count that as the last accepted code - the statement does not say
+	verifiedSince map[string]bool
 }
 
 func newC12Oracle(w *World) Oracle {
-	return &c12Oracle{lastAcceptedTOTP: map[string]string{}, lastWasEnrol: map[string]bool{}, rejectedSince: map[string]int{}}
+	return &c12Oracle{lastAcceptedTOTP: map[string]string{}, lastWasEnrol: map[string]bool{}, rejectedSince: map[string]int{}, verifiedSince: map[string]bool{}}
 }
 
 func countCSV(s string) int {
@@ -77,6 +81,13 @@ func (c *c12Oracle) Check(w *World, o *Obs) []Violation {
 		}
 	case "totp_validate", "sms_validate", "totp_remove", "sms_remove":
 		pid := actingPID(o)
+		if strings.HasSuffix(st.Kind, "_validate") && hasUID && uidPut != "" && uidPut != pid &&
+			o.SessBefore[strings.SplitN(st.Kind, "_", 2)[0]+"_pending"] == uidPut {
+			// the session named somebody who could not be loaded (deleted, or
+			// the store failed): the library went on with the parked login,
+			// and the acceptance belongs to that account
+			pid = uidPut
+		}
 		a := w.acctByPID(pid)
 		if pid == "" || a < 0 {
 			break
@@ -156,7 +167,9 @@ func (c *c12Oracle) Check(w *World, o *Obs) []Violation {
 			digits := strings.TrimSpace(code.Value)
 			last, had := c.lastAcceptedTOTP[pid]
 			repeat := had && last == digits && w.Cfg.TOTPOneTime
-			if accepted && repeat {
+			if accepted && repeat && c.verifiedSince[pid] {
+				w.Stats.Reach["c12_totp_repeat_after_verified_but_refused_code"]++
+			} else if accepted && repeat {
 				how := "verbatim"
 				if digits != code.Value {
 					how = "whitespace"
@@ -175,7 +188,11 @@ func (c *c12Oracle) Check(w *World, o *Obs) []Violation {
 				c.lastAcceptedTOTP[pid] = digits
 				c.lastWasEnrol[pid] = false
 				c.rejectedSince[pid] = 0
+				c.verifiedSince[pid] = false
 			} else {
+				if !repeat && totpVerdict(before.TOTPSecretKey, digits, o.Now) != "stale" {
+					c.verifiedSince[pid] = true
+				}
 				if repeat {
 					w.Stats.Reach["c12_totp_repeat_rejected"]++
 					if digits != code.Value {
@@ -204,6 +221,7 @@ func (c *c12Oracle) Check(w *World, o *Obs) []Violation {
 			c.lastAcceptedTOTP[pid] = strings.TrimSpace(code.Value)
 			c.lastWasEnrol[pid] = true
 			c.rejectedSince[pid] = 0
+			c.verifiedSince[pid] = false
 		}
 	}
 	return out
